@@ -9,6 +9,13 @@ Stage C  the tables are re-observed independently: the generated Lean text is de
          in the thorough tier the C++ probe is rebuilt with the second compiler and must print the same table.
 Stage D  the same relations as the theorems, evaluated by a plain diff of the two tables in Python: every difference is a
          concrete witness (enumerator / message type / class) with its own signature.
+Classification in every call form and at every moment: the C++ translator lists every DECLARATION of IsCommand / IsResponse
+         in the headers (overloads, members) and the probe calls each with an argument of its declared parameter type for
+         every MessageType enumerator (`callForms`, theorem C03_every_call_form_agrees); the Python translator scans every
+         module of the package for statements that modify COMMAND_MESSAGES / RESPONSE_MESSAGES / the registry dictionaries
+         through any alias (tools/c03_py_alias.py; `mutationSites`, theorem C03_classification_tables_never_modified) and
+         executes each site in a fresh interpreter; stage D reports each differing (form, message type) and each site with
+         the tables before/after and the resulting differences from the C++ classification.
 """
 import json
 import os
@@ -65,7 +72,8 @@ def pairing():
 
 # ---- stage A ----------------------------------------------------------------------------------------
 def sources_now():
-    return {'cxx': cc.sha256_files(cx.header_paths(fv.REPO)), 'py': cc.sha256_files(px.source_paths(fv.REPO))}
+    return {'cxx': cc.sha256_files(cx.header_paths(fv.REPO)), 'py': cc.sha256_files(px.source_paths(fv.REPO)),
+            'py_package': px.package_source_hashes(fv.REPO)}
 
 
 def translate(ctx):
@@ -88,7 +96,8 @@ def translate(ctx):
     with open(os.path.join(fv.BUILD, 'c03_cxx.json'), 'w') as f:
         json.dump(cxx, f, indent=1)
     ctx.notes.append('C03Cxx.lean %s' % ('rewritten' if changed else 'unchanged'))
-    cc.write_if_changed(SIDE, json.dumps({'cxx': cxx['sources'], 'py': py['sources']}, indent=1, sort_keys=True) + '\n')
+    cc.write_if_changed(SIDE, json.dumps({'cxx': cxx['sources'], 'py': py['sources'], 'py_package': py['package_sources']},
+                                         indent=1, sort_keys=True) + '\n')
     return cxx, py
 
 
@@ -110,14 +119,14 @@ def parse_generated(path):
             if not m:
                 raise fv.InfraError('%s: unreadable generated line %r' % (path, line))
             body, comment = m.group(1).strip(), m.group(2)
-            toks = re.findall(r'0x[0-9a-f]+|\(-\d+\)|-?\d+|true|false|enum_\w+', body)
+            toks = re.findall(r'0x[0-9a-f]+|\(-\d+\)|callForm_\d+|-?\d+|true|false|enum_\w+', body)
             vals = []
             for t in toks:
                 if t.startswith('0x'):
                     vals.append(cc.decode(int(t, 16)))
                 elif t in ('true', 'false'):
                     vals.append(t == 'true')
-                elif t.startswith('enum_'):
+                elif t.startswith('enum_') or t.startswith('callForm_'):
                     vals.append(t)
                 else:
                     vals.append(int(t.strip('()')))
@@ -142,6 +151,18 @@ def correspond(ctx, cxx, py):
     want = [((v, c, r), m) for m, v, c, r in cxx['classification']]
     if gc.get('classification') != want:
         ctx.disagree('generated Lean classification table differs from the probe output', {'lean': gc.get('classification')})
+    want = [((f['function'], f['text'], 'callForm_%d' % k), f['text']) for k, f in enumerate(cxx['call_forms'])]
+    if gc.get('callForms') != want:
+        ctx.disagree('generated Lean callForms table differs from the probe output', {'lean': gc.get('callForms')})
+    for k, f in enumerate(cxx['call_forms']):
+        want = [((v, r), m) for m, v, r in f['results']]
+        if gc.get('callForm_%d' % k) != want:
+            ctx.disagree('generated Lean table of call form %s differs from the probe output' % f['text'],
+                         {'lean': gc.get('callForm_%d' % k)})
+        n += len(want)
+    want = [(s['object'], s['file'], s['line']) for s in py['mutation_sites']]
+    if [v for v, _ in gp.get('mutationSites', [((None,), '')])] != want:
+        ctx.disagree('generated Lean mutationSites table differs from the translator output', {'lean': gp.get('mutationSites')})
     want = [((s['name'], s['type'], s['version']), s['name']) for s in cxx['structs']]
     if gc.get('structs') != want:
         ctx.disagree('generated Lean struct table differs from the probe output', {'lean': gc.get('structs')})
@@ -181,7 +202,7 @@ def correspond(ctx, cxx, py):
         other = 'clang++' if cx.compiler() != 'clang++' else 'g++'
         try:
             t2 = cx.extract(fv.REPO, os.path.join(fv.BUILD, 'c03_second'), cxx=other)
-            for k in ('enums', 'const_groups', 'classification', 'structs'):
+            for k in ('enums', 'const_groups', 'classification', 'structs', 'call_forms'):
                 if t2[k] != cxx[k]:
                     ctx.disagree('%s and %s print different %s tables' % (cx.compiler(), other, k), {'second': t2[k]})
             ctx.cov['second_compiler'] = other + ': same table'
@@ -277,6 +298,76 @@ def diff_tables(ctx, cxx, py, only=None):
                  'IsResponse(MessageType::%s) = %s but (MessageType.%s in RESPONSE_MESSAGES) = %s' % (m_show, str(ir).lower(), m_show, v in pr),
                  {'message_type': m_show, 'value': v, 'cxx_IsResponse': ir, 'py_is_response': v in pr,
                   'observe': 'IsResponse(MessageType::%s) vs is_response(MessageType.%s)' % (m_show, m_show)})
+    # --- every declared call form of IsCommand / IsResponse (overloads, members), called with its declared parameter type ---
+    enum_form = dict((v, (ic, ir)) for _, v, ic, ir in cxx['classification'])
+    for f in cxx['call_forms']:
+        key, pyset, k = ('command', pc, 0) if f['function'] == 'IsCommand' else ('response', pr, 1)
+        direct = f['scope'] is None and f['param'] == 'MessageType'      # the call `IsX(MessageType::NAME)` judged just above
+        for m, v, r in f['results']:
+            ctx.case('classify %s by %s' % (m, f['text']), nontrivial=True)
+            ctx.count('call_form_results_compared')
+            m_show = tname[v]
+            if r != (v in pyset) and not direct:
+                pyname = 'COMMAND_MESSAGES' if k == 0 else 'RESPONSE_MESSAGES'
+                viol('C03/%s-classification/%s/%s' % (key, m_show, f['text'].replace(' ', '_')),
+                     'the call form %s (%s:%d), called as `%s` with NAME = %s, returns %s but (MessageType.%s in %s) = %s; '
+                     '%s(MessageType::%s) = %s' % (f['text'], f['file'], f['line'], f['call'], m_show, str(r).lower(), m_show, pyname,
+                                                   v in pyset, f['function'], m_show, str(enum_form[v][k]).lower()),
+                     {'message_type': m_show, 'value': v, 'call_form': f['text'], 'declared_at': '%s:%d' % (f['file'], f['line']),
+                      'cxx_call': f['call'].replace('NAME', m_show), 'cxx_result': r, 'python_membership': v in pyset,
+                      'enum_form_result': enum_form[v][k],
+                      'observe': '%s vs is_%s(MessageType.%s)' % (f['call'].replace('NAME', m_show), key, m_show)})
+    for fn in ('IsCommand', 'IsResponse'):
+        if not any(f['function'] == fn for f in cxx['call_forms']):
+            ctx.disagree('no declaration of %s was found in the headers' % fn, {})
+    # --- the tables stay what they are: no statement of the package modifies them after their definition ---
+    groups = {}
+    for st in py['mutation_sites']:
+        groups.setdefault((st['object'], st['file'], st['callable']), []).append(st)
+    ctx.cov['input_distribution']['python_modules_scanned_for_modifications'] = py['package_files_scanned']
+    cxx_names = {'is_command': set(tname[v] for _, v, ic, _ in cxx['classification'] if ic),
+                 'is_response': set(tname[v] for _, v, _, ir in cxx['classification'] if ir)}
+    for (obj, file, fn), sts in sorted(groups.items()):
+        ctx.case('modification of %s in %s:%s' % (obj, file, fn), nontrivial=True)
+        demo = sts[0].get('demo') or {}
+        stmts = '; '.join('%s:%d `%s`' % (file, st['line'], st['statement'][:90]) for st in sts[:3]) + \
+                (' (+%d more)' % (len(sts) - 3) if len(sts) > 3 else '')
+        if fn == '<module>' and demo.get('loaded_by_plain_import'):
+            # executed by the plain import already: the tables above carry its effect and were compared with C++
+            ctx.disagree('%s is modified while the package is imported (%s): the imported tables are not the ones written in '
+                         'messages/defs.py' % (obj, stmts), {'sites': sts})
+            continue
+        rep = {'object': obj, 'file': 'python/fusion_engine_client/' + file, 'function': fn,
+               'statements': [{'line': st['line'], 'statement': st['statement'], 'what': st['what'], 'in': st['function']} for st in sts],
+               'executed': demo.get('call'), 'executed_in': 'fresh interpreter, tables read after `import fusion_engine_client.messages` '
+               'and again after the call', 'changes': demo.get('changes'), 'tables_afterwards': demo.get('after'),
+               'exception_during_execution': demo.get('exception')}
+        if demo.get('demonstrated'):
+            ch = demo['changes']
+            parts = []
+            for k2, c in sorted(ch.items()):
+                if k2.startswith('is_'):
+                    continue
+                parts.append('%s %s%s%s' % (k2, 'is rebound; ' if c.get('rebound') else '',
+                                            'gains %s' % c['added'] if c['added'] else '',
+                                            (' loses %s' % c['removed']) if c['removed'] else ''))
+            cons = []
+            for fnname, cname in (('is_command', 'IsCommand'), ('is_response', 'IsResponse')):
+                if fnname in demo.get('after', {}):
+                    for nm in sorted(set(demo['after'][fnname]) ^ cxx_names[fnname]):
+                        cons.append('%s(MessageType.%s) = %s but %s(MessageType::%s) = %s'
+                                    % (fnname, nm, nm in demo['after'][fnname], cname, nm, str(nm in cxx_names[fnname]).lower()))
+            rep['classification_differences_afterwards'] = cons
+            viol('C03/classification-tables-modified/%s/%s:%s' % (obj, file, fn),
+                 '%s modifies %s (%s); executed as %s: %s; afterwards %s' % (
+                     fn if fn != '<module>' else 'importing ' + sts[0]['module'], obj, stmts, demo.get('call'), '; '.join(parts),
+                     ('%s (%d differences from C++)' % (cons[0], len(cons))) if cons else
+                     'the tables differ from the ones the theorems were checked on'), rep)
+        else:
+            viol('C03/classification-tables-modified/%s/%s:%s' % (obj, file, fn),
+                 '%s modifies %s after its definition, %s (%s); found by the scan of the package, executing %s did not change the '
+                 'tables (%s)' % (fn if fn != '<module>' else 'importing ' + sts[0]['module'], obj, sts[0]['what'], stmts,
+                                  demo.get('call') or fn, demo.get('exception') or demo.get('why') or 'statement not reached'), rep)
     cvals = set(v for _, v, _, _ in cxx['classification'])
     for key, lst in (('command', py['command']), ('response', py['response'])):
         for m, v in lst:
@@ -327,8 +418,9 @@ def diff_tables(ctx, cxx, py, only=None):
         if (r['name'], r['type'], r['version']) not in names:
             viol('C03/registry/%s/registered-but-not-a-payload-class' % r['name'], 'message_type_to_class holds %s for type %d, which '
                  'is not among the MessagePayload subclasses' % (r['name'], r['type']), {'registry_entry': r})
-    for k in ('enumerators_compared', 'message_types_classified', 'payload_structs'):
+    for k in ('enumerators_compared', 'message_types_classified', 'payload_structs', 'call_form_results_compared'):
         ctx.cov['input_distribution'].setdefault(k, 0)
+    ctx.cov['input_distribution']['classification_call_forms'] = [f['text'] for f in cxx['call_forms']]
     ctx.cov['input_distribution']['enum_pairs'] = len(pairs)
     ctx.cov['input_distribution']['cxx_enum_class_blocks'] = cxx['n_enum_blocks']
     ctx.cov['input_distribution']['python_payload_classes'] = len(py['payload'])
@@ -373,6 +465,10 @@ def run(ctx, only=None):
         'completeness of each enumerator list is checked by the compiler: switch without default under -Werror=switch; '
         'number of blocks checked against a grep count); its hand-written CONST_GROUPS list (ros::GPSFixMessage::COVARIANCE_TYPE_*)',
         'tools/c03_py_extract.py (run-time walk of the imported working tree, equal to the ast.parse view of the class bodies)',
+        'tools/c03_py_alias.py as the reader of "which statements can modify the tables" (may-alias scan of every package module; '
+        'aliasing through containers, getattr()/globals() strings other than the listed forms, or code outside the package is not seen)',
+        'tools/c03_cxx_extract.py as the reader of the DECLARATIONS of IsCommand/IsResponse (every textual occurrence of either name '
+        'outside a function body must be a declaration it read, otherwise the translation fails)',
         'the hand-written pairing table `enumPairs` (incl. sentinels) and exemption list `pyNotOnWire` in lean/FeVerif/Spec/C03.lean',
         'g++/clang++ and CPython as the evaluators of the two languages']
     correspond(ctx, cxx, py)
@@ -394,7 +490,9 @@ def search(ctx):
 def check(ctx):
     ctx.cov['rule'] = ('exhaustive: every enumerator of every `enum class` block of src/point_one/fusion_engine/messages/*.h (plus the '
                        'listed static-const group) against the paired Python IntEnum; every MessageType enumerator x {IsCommand, '
-                       'IsResponse}; every struct declaring MESSAGE_TYPE/MESSAGE_VERSION against the MessagePayload subclasses and '
+                       'IsResponse} x every call form the headers declare (each overload / member, called with an argument of its '
+                       'declared parameter type); every module of python/fusion_engine_client scanned (aliases followed) for '
+                       'statements modifying the classification sets / registry, each site executed in a fresh interpreter; every struct declaring MESSAGE_TYPE/MESSAGE_VERSION against the MessagePayload subclasses and '
                        'message_type_to_class, both directions. A case = one (enum, name) / message type / struct / class; all are '
                        'non-trivial; distinct = distinct case text.')
     ctx.assumptions += [
